@@ -429,10 +429,11 @@ C15_SETS = {
                 + [("only" + f.lower(), [f], "dev") for f in gen.ALL_FEATURES if f != "VERBOSE_DEBUG_LOG"]
                 + [("payvoid", gen.ALL_FEATURES, "plain", dict(payload="void")), ("paybig", gen.ALL_FEATURES, "dev", dict(payload="big")),
                    ("payodd", [], "plain11", dict(payload="odd")), ("limit9", gen.ALL_FEATURES, "plain", dict(limit=9)),
-                   ("limit9none", [], "dev", dict(limit=9)), ("taskroom", gen.ALL_FEATURES, "plain", dict(taskcap=40)),
+                   ("limit9none", [], "dev", dict(limit=9)), ("taskroom", gen.ALL_FEATURES, "plain", dict(taskcap=40)), ("taskroombig", ["PLANS", "UTILITY_THEORY"], "dev", dict(taskcap=40, payload="big")),
                    ("bottomup", ["PLANS"], "plain", dict(order="BottomUp"))],
 }
-C15_SETS["quick"] += [("paybig", ["SERIALIZATION", "STRUCTURE_REPORT"], "plain", dict(payload="big", taskcap=40))]
+C15_SETS["quick"] += [("paybig", ["PLANS", "SERIALIZATION", "STRUCTURE_REPORT"], "plain", dict(payload="big")),
+                      ("payvoid", gen.ALL_FEATURES, "plain11", dict(payload="void"))]
 C15_FIXTURES = {"quick": ["comp", "ortho"], "thorough": ["comp", "ortho", "auto", "oroot", "wide"]}
 
 
@@ -447,7 +448,7 @@ def c15_campaign(tier, seed=SEED, log=print):
     shutil.rmtree(cdir, ignore_errors=True)
     os.makedirs(cdir)
     result = dict(key=key, runs=[], errors=[])
-    common = dict(plans=False, utility=False, serial=False, quiet=0.0, payload=False)
+    common = dict(plans=False, utility=False, serial=False, quiet=0.0, payload=False, logger=False)
     from concurrent.futures import ThreadPoolExecutor
     todo = []
     for fxname in C15_FIXTURES[tier]:
@@ -466,34 +467,45 @@ def c15_campaign(tier, seed=SEED, log=print):
     build.repo_hash()
     with ThreadPoolExecutor(max_workers=14) as pool:
         exes = list(pool.map(_build, todo))
+    subsets = [("base", dict(plans=False, utility=False), set()),
+               ("plans", dict(plans=True, utility=False, planheavy=0.2), {"PLANS"}),
+               ("utility", dict(plans=False, utility=True), {"UTILITY_THEORY"})]
+    work = []
     for (fxname, fx, feats, variant), exe in zip(todo, exes):
-        if True:
-            if isinstance(exe, RuntimeError):
-                result["errors"].append(dict(kind="build", fixture=fx["name"], variant=variant, msg=str(exe)[:1500]))
-                continue
-            f = os.path.join(cdir, "%s.ndjson" % fx["name"])
-            n, crash = explore.random_walks(fx, exe, f, seed * 4099 + sum(map(ord, fxname)), 500 if tier == "quick" else 3000, profile=common)
-            d, res = explore.validate(fx, [f], dev=open_switches(), jobs=1)
-            c = gen.cfg_of(fx)
-            run = dict(fixture=fx["name"], variant=variant, features=list(feats), files=[f], checked=0, diffs=[], crashes=[], tlc_errors=[], notes={},
-                       group="%s/limit%d/%s" % (fxname, c["limit"], c["order"]), payload=c["payload"], limit=c["limit"], taskcap=c["taskcap"])
-            if crash:
-                run["crashes"].append(dict(file=f, rc=crash[0], stderr=crash[1][-800:], records=n))
-            for r in res:
-                run["checked"] += r["checked"]
-                if r["error"]:
-                    run["tlc_errors"].append(dict(file=r["file"], msg=r["error"][-800:]))
-                for dd in r["diffs"]:
-                    run["diffs"].append(dict(file=r["file"], l=dd["l"], tag=dd["tag"], call="", detail=[x[:400] for x in dd["detail"]]))
-            shutil.rmtree(d, ignore_errors=True)
-            # the callback sequence of the run (for the cross-build comparison)
-            h = hashlib.sha256()
-            with open(f) as fh:
-                for line in fh:
-                    r = json.loads(line)
-                    h.update(json.dumps([r["a"], [[e[0], e[1]] for e in r["ev"]], (r["post"] or {}).get("act") if isinstance(r["post"], dict) else None]).encode())
-            run["behaviour_hash"] = h.hexdigest()
-            result["runs"].append(run)
-            log("c15 %s/%s: %d steps, %d diffs" % (fx["name"], variant, run["checked"], len([x for x in run["diffs"] if ".D10" not in x["tag"]])))
+        if isinstance(exe, RuntimeError):
+            result["errors"].append(dict(kind="build", fixture=fx["name"], variant=variant, msg=str(exe)[:1500]))
+            continue
+        for sname, prof, needs in subsets:
+            if needs <= set(feats):
+                work.append((fxname, fx, feats, variant, exe, sname, dict(common, **prof)))
+
+    def _run(item):
+        fxname, fx, feats, variant, exe, sname, prof = item
+        f = os.path.join(cdir, "%s-%s.ndjson" % (fx["name"], sname))
+        n, crash = explore.random_walks(fx, exe, f, seed * 4099 + sum(map(ord, fxname + sname)), (300 if tier == "quick" else 2000), profile=prof)
+        d, res = explore.validate(fx, [f], dev=open_switches(), jobs=1)
+        c = gen.cfg_of(fx)
+        run = dict(fixture=fx["name"], variant=variant, features=list(feats), files=[f], checked=0, diffs=[], crashes=[], tlc_errors=[], notes={}, subset=sname,
+                   group="%s/%s/limit%d/%s%s" % (fxname, sname, c["limit"], c["order"], "/taskcap%d" % c["taskcap"] if sname == "plans" else ""), payload=c["payload"], limit=c["limit"], taskcap=c["taskcap"])
+        if crash:
+            run["crashes"].append(dict(file=f, rc=crash[0], stderr=crash[1][-800:], records=n))
+        for r in res:
+            run["checked"] += r["checked"]
+            if r["error"]:
+                run["tlc_errors"].append(dict(file=r["file"], msg=r["error"][-800:]))
+            for dd in r["diffs"]:
+                run["diffs"].append(dict(file=r["file"], l=dd["l"], tag=dd["tag"], call="", detail=[x[:400] for x in dd["detail"]]))
+        shutil.rmtree(d, ignore_errors=True)
+        # the callback sequence of the run (for the cross-build comparison)
+        h = hashlib.sha256()
+        with open(f) as fh:
+            for line in fh:
+                r = json.loads(line)
+                h.update(json.dumps([r["a"], [[e[0], e[1]] for e in r["ev"]], (r["post"] or {}).get("act") if isinstance(r["post"], dict) else None]).encode())
+        run["behaviour_hash"] = h.hexdigest()
+        log("c15 %s/%s/%s: %d steps, %d diffs" % (fx["name"], variant, sname, run["checked"], len([x for x in run["diffs"] if ".D10" not in x["tag"]])))
+        return run
+    with ThreadPoolExecutor(max_workers=10) as pool:
+        result["runs"] = list(pool.map(_run, work))
     json.dump(result, open(rfile, "w"))
     return result
